@@ -220,3 +220,95 @@ def simulate(tla: Path, cfg: Path, tmp: Path, *, num=100, depth=12, seed=0, **kw
         behs.append(beh)
     shutil.rmtree(d, ignore_errors=True)
     return res, behs
+
+
+def printed(out: str, marker: str):
+    """Value V printed by `PrintT(<<"marker", V>>)` (TLC pretty-prints over several lines): bracket matching."""
+    i = out.find(f'"{marker}"')
+    if i < 0:
+        return None
+    start = out.rfind("<<", 0, i)
+    depth, j, n = 0, start, len(out)
+    instr = False
+    while j < n:
+        ch = out[j]
+        if instr:
+            if ch == "\\":
+                j += 1
+            elif ch == '"':
+                instr = False
+        elif ch == '"':
+            instr = True
+        elif out.startswith("<<", j):
+            depth += 1
+            j += 1
+        elif out.startswith(">>", j):
+            depth -= 1
+            j += 1
+            if depth == 0:
+                return tlaval.parse(out[start:j + 1])[1]
+        j += 1
+    raise TlcError(f"unbalanced printed value for {marker}")
+
+
+class LazyGraph:
+    """State graph dump whose node labels are parsed on demand (large graphs, parallel replay)."""
+
+    def __init__(self, path: Path):
+        self.raw, self.edges, self.init = {}, [], []
+        with open(path) as f:
+            for line in f:
+                m = _EDGE.match(line)
+                if m:
+                    self.edges.append((m.group(1), m.group(2)))
+                    continue
+                m = _NODE.match(line)
+                if m:
+                    nid = m.group(1)
+                    if nid not in self.raw:
+                        self.raw[nid] = m.group(2)
+                    if ",style = filled" in line[m.end(2):m.end(2) + 20]:
+                        self.init.append(nid)
+
+    def state(self, nid):
+        return tlaval.parse_state(_unesc(self.raw[nid]))
+
+    def tree_paths(self):
+        """Root-to-leaf paths of a BFS spanning tree (every node on >= 1 path), as lists of node ids."""
+        from collections import deque
+        adj = {}
+        for s, d in self.edges:
+            adj.setdefault(s, []).append(d)
+        parent = {i: None for i in self.init}
+        kids = {}
+        order = []
+        dq = deque(self.init)
+        while dq:
+            u = dq.popleft()
+            order.append(u)
+            for v in adj.get(u, ()):
+                if v not in parent:
+                    parent[v] = u
+                    kids[u] = kids.get(u, 0) + 1
+                    dq.append(v)
+        paths = []
+        for u in order:
+            if u not in kids:
+                p = []
+                while u is not None:
+                    p.append(u)
+                    u = parent[u]
+                p.reverse()
+                paths.append(p)
+        return paths
+
+
+def dump_lazy(tla: Path, cfg: Path, tmp: Path, **kw):
+    base = tmp / (tla.stem + "_graph" + str(time.time_ns()))
+    extra = tuple(kw.pop("args", ()))
+    res = run(tla, cfg, tmp, args=("-dump", "dot,actionlabels", str(base), *extra), **kw)
+    dot = Path(str(base) + ".dot")
+    g = LazyGraph(dot) if dot.exists() else None
+    if dot.exists():
+        dot.unlink()
+    return res, g
